@@ -2,6 +2,7 @@
 from . import register
 from .common import *
 from gen import body as G
+import check as C
 
 
 def parse_ans(a):
@@ -71,7 +72,39 @@ def run(o, ctx, tier, seed, replay=None):
             o.violations.append({"case": c, "impl": a[:200], "why": why})
 
 
-register("C06", lean=["Khttp.Props.C06", "Khttp.Props.C07BodySkeleton"], run=run,
+    # transient errors: raw read number k fails once with Interrupted and the caller simply calls again. Nothing may change:
+    # same bytes, same outcome, same number of bytes pulled as in the undisturbed run — i.e. as the (error-free) model says
+    # (the failure flag is set by the interrupted call and is not compared; `drain` gives up at an error by design)
+    r = G.rng_for(seed, "body-eintr")
+    pick = [i for i, l in enumerate(lines) if " api=drain" not in l]
+    pick = r.sample(pick, min(len(pick), 600 if t == "quick" else 20000))
+    el, base = [], []
+    for i in pick:
+        for k in sorted(set([0, 1, 2, r.randrange(0, 12)])):
+            el.append(lines[i] + " eintr=%d" % k); base.append(i)
+    eimpl = C.run_sharded(ctx["kimpl"], el)
+    proj = lambda a: " ".join(a.split()[:4])
+    def same(a, b):
+        pa, pb = a.split(), b.split()
+        if len(pa) < 4 or len(pb) < 4:
+            return False
+        if pb[2] == "END":
+            return pa[:4] == pb[:4]
+        # a failing body (truncated / malformed): the error must still be reported; HOW MANY of the payload bytes were handed out
+        # before it depends on where the calls end (bytes copied in the failing call are not reported) — a prefix either way
+        da, db = unhex(pa[1]), unhex(pb[1])
+        return pa[2] == pb[2] and (da.startswith(db) or db.startswith(da))
+    for c, a, i in zip(el, eimpl, base):
+        o.evaluations += 1
+        o.count("eintr")
+        if not same(a, impl[i]) and len(o.violations) < 40:
+            o.violations.append({"case": c, "cases": [lines[i], c], "impl": a[:200], "expected": impl[i][:200],
+                                 "why": "an interrupted read that was retried changed the result: %s instead of %s" % (proj(a)[:80], proj(impl[i])[:80])})
+        if ctx.get("have_model") and not same(a, model[i]) and len(o.mismatches) < 20:
+            o.mismatches.append({"case": c, "impl": a[:200], "model": model[i][:200]})
+
+
+register("C06", lean=["Khttp.Props.C06", "Khttp.Props.C06Contract", "Khttp.Props.C07BodySkeleton"], run=run,
          rule="BODY cases: payload lengths {0,1,2,3,5,8,17,100,4095,4096,4097,9000,random} x {fixed, chunked with random chunkings, mixed-case / zero-padded sizes, extensions, trailers} x "
               "{valid + trailing bytes, every kind of truncation point, single-byte corruption of a size digit or of the CRLF after chunk data} x random leftover|stream split x stream segmentations "
               "{all, 1-byte, random} x caller schedules {1, 2, 7, 1024, 4096, 8192, random} x {Read, BufRead, drop-drain}. distinct_nontrivial = all distinct case lines.",
